@@ -20,6 +20,7 @@ func Faults(n int) int { return n << 8 }
 type Coro = gocoro.Coroutine[*t_aio.Submission, *t_aio.Completion, any]
 
 func Coroutine(flags int) Coro                 { panic("intrinsic") }
+func AutoO2(label string)                      { panic("intrinsic") }
 func SetConfig(cfg any)                        { panic("intrinsic") }
 func UseStore(s any)                           { panic("intrinsic") }
 func UseRouter(r any)                          { panic("intrinsic") }
